@@ -46,14 +46,15 @@ ANY == {"any"}   \* some class; the statement does not say which
 NameLen(n) == IF n = "none" THEN 0 ELSE IF n = "" THEN 1 ELSE 4     \* absent / "\0" / "dev\0", "oth\0"
 Hello(n)   == [k |-> "hello", blen |-> 1 + NameLen(n), claim |-> 1 + NameLen(n),
                proto |-> 1, name |-> n, marker |-> 1, key |-> "good", nonce |-> 0, idx |-> 0, integ |-> "ok"]
-Hs(kind)   == [k |-> "hs", blen |-> 49, claim |-> 49, proto |-> 0, name |-> kind, marker |-> 1,
+\* (hp: length of the payload the responder attaches to its handshake message - any conformant responder may)
+Hs(kind, hp) == [k |-> "hs", blen |-> 49 + hp, claim |-> 49 + hp, proto |-> 0, name |-> kind, marker |-> 1,
                key |-> "good", nonce |-> 0, idx |-> 0, integ |-> "ok"]
 HsErr(mac) == [k |-> "hserr", blen |-> IF mac THEN 22 ELSE 12, claim |-> IF mac THEN 22 ELSE 12,
                proto |-> 0, name |-> IF mac THEN "mac" ELSE "other", marker |-> 1,
                key |-> "good", nonce |-> 0, idx |-> 0, integ |-> "ok"]
 Data(i)    == [k |-> "data", blen |-> 20 + i, claim |-> 20 + i, proto |-> 0, name |-> "none", marker |-> 1,
                key |-> "good", nonce |-> i - 1, idx |-> i, integ |-> "ok"]
-Honest(n)  == <<Hello(n), Hs("ok")>> \o [i \in 1..M |-> Data(i)]
+Honest(nn) == <<Hello(nn.dev), Hs("ok", nn.hp)>> \o [i \in 1..M |-> Data(i)]
 NF == M + 2
 
 RemoveAt(s, i) == SubSeq(s, 1, i - 1) \o SubSeq(s, i + 1, Len(s))
@@ -61,7 +62,7 @@ InsertAt(s, i, e) == SubSeq(s, 1, i - 1) \o <<e>> \o SubSeq(s, i, Len(s))
 
 \* the stream the device really sends, given the deviation
 FramesOf(nn, dd) ==
-  LET h == Honest(nn.dev) IN
+  LET h == Honest(nn) IN
   CASE dd.k = "none"      -> h
     [] dd.k = "marker"    -> [h EXCEPT ![dd.i].marker = 0]
     [] dd.k = "lenUp"     -> [h EXCEPT ![dd.i].claim = @ + 5, ![dd.i].integ = "bad"]
@@ -120,7 +121,7 @@ Handle(s, f) ==
          IF f.k = "hs" THEN
             IF f.key = "good" /\ f.integ = "ok"
             THEN [s EXCEPT !.st = "READY", !.ready = {"ok"}]
-            ELSE IF f.claim < 49 THEN Escape(s, ANY)                 \* truncated handshake
+            ELSE IF f.claim < f.blen THEN Escape(s, ANY)             \* truncated handshake (whatever its payload)
             ELSE Escape(s, {"invalidkey"})                           \* MAC failure -> invalid key
          ELSE IF f.k = "hserr" THEN
             FailClose(s, IF f.name = "mac" THEN {"invalidkey"} ELSE {"handshake"})
